@@ -54,6 +54,21 @@ fn main() {
             let curve = Curve::new(MapMode::Osu, &pts, None, &mut CurveBuffers::default());
             println!("returned after {:?}: {} vertices, dist {}", t.elapsed(), curve.path().len(), curve.dist());
         }
-        _ => eprintln!("usage: curve_probe map <file> | bezier <coord> <n>"),
+        Some("zigzag") => {
+            // n-point bezier alternating between (-amp, -amp) and (amp, amp): the largest second
+            // differences the decoder's coordinate limit allows
+            let amp: f32 = args[2].parse().expect("amp");
+            let n: usize = args[3].parse().expect("n");
+            let pts: Vec<PathControlPoint> = (0..n)
+                .map(|i| PathControlPoint {
+                    pos: if i % 2 == 0 { Pos::new(-amp, -amp) } else { Pos::new(amp, amp - i as f32) },
+                    path_type: (i == 0).then_some(PathType::BEZIER),
+                })
+                .collect();
+            let t = std::time::Instant::now();
+            let curve = Curve::new(MapMode::Osu, &pts, None, &mut CurveBuffers::default());
+            println!("returned after {:?}: {} vertices = {:.1} per control point, dist {}", t.elapsed(), curve.path().len(), curve.path().len() as f64 / n as f64, curve.dist());
+        }
+        _ => eprintln!("usage: curve_probe map <file> | sliders <file> | bezier <coord> <n> | zigzag <amp> <n>"),
     }
 }
